@@ -278,6 +278,16 @@ public class BigZ {
         for (int i = 0; i < s.length(); i++) { int k = alpha.indexOf(s.charAt(i)); if (k < 0 || k >= b) return N(i); }
         return N(s.length());
     }
+    public static Value StrStripWS(Value sv) {
+        String s = ((StringValue) sv).val.toString(); StringBuilder sb = new StringBuilder();
+        for (int i = 0; i < s.length(); i++) { char c = s.charAt(i); if (c != ' ' && c != '\t' && c != '\n' && c != '\r' && c != '\f') sb.append(c); }
+        return new StringValue(sb.toString());
+    }
+    public static Value StrLower(Value sv) {
+        String s = ((StringValue) sv).val.toString(); StringBuilder sb = new StringBuilder();
+        for (int i = 0; i < s.length(); i++) { char c = s.charAt(i); sb.append(c >= 'A' && c <= 'Z' ? (char) (c + 32) : c); }
+        return new StringValue(sb.toString());
+    }
     /* limbs helper: split non-negative a into n hex limbs of w bits, least significant first */
     public static Value ZLimbs(Value av, Value wv, Value nv) {
         BigInteger a = Z(av); int w = I(wv), n = I(nv);
